@@ -66,3 +66,71 @@ package gortsplib
 //@ func (sc *ServerConn) handleRequestOuter
 //@   opt inline=0
 //@   modifies *
+
+// --- C18: nothing larger than MaxPacketSize is handed to a transport -----------------------
+// Each assertion sits at the call that passes the encoded packet on (to the write queue or to a
+// reader's queue) and compares its length with the configured maximum.
+//@ func (ctx *wrappedSRTPContext) rtpOverhead
+//@   ensures[C18] ret == 10 + len(ctx.mki)
+//@   modifies nothing
+//@ func (ctx *wrappedSRTPContext) rtcpOverhead
+//@   ensures[C18] ret == 14 + len(ctx.mki)
+//@   modifies nothing
+
+//@ func (cf *clientFormat) writePacketRTP
+//@   opt inline=0
+//@   assert[C18]@call:writePacketRTPEncoded#1 len(encr) <= old(cf.cm.c.MaxPacketSize)
+//@   assert[C18]@call:writePacketRTPEncoded#2 len(plain) <= old(cf.cm.c.MaxPacketSize)
+//@   modifies *
+
+//@ func (cm *clientMedia) writePacketRTCP
+//@   opt inline=0
+//@   assert[C18]@call:Push len(buf) <= cm.c.MaxPacketSize
+//@   modifies *
+
+//@ func (ssf *serverSessionFormat) writePacketRTP
+//@   opt inline=0
+//@   assert[C18]@call:writePacketRTPEncoded#1 len(encr) <= old(ssf.ssm.ss.s.MaxPacketSize)
+//@   assert[C18]@call:writePacketRTPEncoded#2 len(plain) <= old(ssf.ssm.ss.s.MaxPacketSize)
+//@   modifies *
+
+//@ func (ssm *serverSessionMedia) writePacketRTCP
+//@   opt inline=0
+//@   assert[C18]@call:writePacketRTCPEncoded#1 len(encr) <= ssm.ss.s.MaxPacketSize
+//@   assert[C18]@call:writePacketRTCPEncoded#2 len(plain) <= ssm.ss.s.MaxPacketSize
+//@   modifies *
+
+// The stream writers hand the packet to every reader inside a loop that calls reader code;
+// the configuration (Server.MaxPacketSize and the links from the stream media to the server)
+// is set at start-up only, which govc checks over the module.
+//@ func (ssf *serverStreamFormat) writePacketRTP
+//@   opt inline=0
+//@   assert[C18]@call:writePacketRTPEncoded len(buf) <= old(ssf.ssm.st.Server.MaxPacketSize)
+//@   modifies *
+
+//@ func (ssm *serverStreamMedia) writePacketRTCP
+//@   opt inline=0
+//@   opt stable-field=Server.MaxPacketSize,serverStreamMedia.st,ServerStream.Server
+//@   assert[C18]@call:writePacketRTCPEncoded#1 len(encr) <= ssm.st.Server.MaxPacketSize
+//@   assert[C18]@call:writePacketRTCPEncoded#2 len(plain) <= ssm.st.Server.MaxPacketSize
+//@   modifies *
+
+//@ func (smm *serverMulticastWriterMedia) writePacketRTCP
+//@   opt inline=0
+//@   assert[C18]@call:writePacketRTCPEncoded#1 len(encr) <= smm.maxPacketSize
+//@   assert[C18]@call:writePacketRTCPEncoded#2 len(plain) <= smm.maxPacketSize
+//@   modifies *
+
+// Start accepts a configuration only if the maximum packet size is at most 1472 and the write
+// queue size is a power of two (defaults are filled in first).
+//@ func (s *Server) Start
+//@   opt inline=0
+//@   opt stable-field=Server.MaxPacketSize,Server.WriteQueueSize
+//@   ensures[C18] ret == nil ==> s.MaxPacketSize <= 1472 && s.MaxPacketSize != 0 && s.WriteQueueSize != 0 && (s.WriteQueueSize == 256 || (s.WriteQueueSize & (s.WriteQueueSize - 1)) == 0)
+//@   modifies *
+
+//@ func (c *Client) Start
+//@   opt inline=0
+//@   opt stable-field=Client.MaxPacketSize,Client.WriteQueueSize
+//@   ensures[C18] ret == nil ==> c.MaxPacketSize <= 1472 && c.MaxPacketSize != 0 && c.WriteQueueSize != 0 && (c.WriteQueueSize == 256 || (c.WriteQueueSize & (c.WriteQueueSize - 1)) == 0)
+//@   modifies *
